@@ -3,7 +3,12 @@
    hold maxPayloadLen + 2 bytes; the old-style padding count is read from the
    caller's payload, not from the OSN-prefixed copy).  The sync.Pool buffers are
    not part of this sequential model: a stored payload is the list of bytes the
-   slice `retainablePacket.payload` denotes. *)
+   slice `retainablePacket.payload` denotes.  `*retainablePacket.header =
+   header.Clone()` is a deep copy (CSRC list, extension list and every
+   extension's payload bytes are private): the stored header is the VALUE of
+   the caller's header at the time of the call - that no later write of the
+   caller reaches it is checked by the correspondence (the harness rewrites
+   its header, CSRC entries and extension bytes in place after every Write). *)
 From IV Require Import Base.Word Model.RtpBuffer.
 
 Definition maxPayloadLen : Z := 1460.
@@ -16,9 +21,9 @@ Definition len (l : list Z) : Z := Z.of_nat (length l).
 
 (* header.SSRC / PayloadType / SequenceNumber rewritten *)
 Definition hdr_rtx (h : hdr) (ssrc pt seq : Z) : hdr :=
-  mkH (h_pad h) (h_padsize h) (h_marker h) pt seq (h_ts h) ssrc (h_csrc h).
+  mkH (h_pad h) (h_padsize h) (h_marker h) pt seq (h_ts h) ssrc (h_csrc h) (h_x h).
 Definition hdr_nopad (h : hdr) : hdr :=
-  mkH false 0 (h_marker h) (h_pt h) (h_seq h) (h_ts h) (h_ssrc h) (h_csrc h).
+  mkH false 0 (h_marker h) (h_pt h) (h_seq h) (h_ts h) (h_ssrc h) (h_csrc h) (h_x h).
 
 (* binary.BigEndian.PutUint16 *)
 Definition be16 (x : Z) : list Z := [(x / 256) mod 256; x mod 256].
@@ -52,7 +57,7 @@ Definition new_packet_noop (h : hdr) (pay : list Z) : np_res := NPOk (mkRP (h_se
 Definition pf_in := (hdr * list Z * Z * Z)%type.
 Definition pf_out := (Z * Z * hdr * list Z)%type.   (* code, stored seq, header, payload *)
 
-Definition zero_hdr : hdr := mkH false 0 false 0 0 0 0 [].
+Definition zero_hdr : hdr := mkH false 0 false 0 0 0 0 [] no_x.
 
 Definition pf_obs (r : np_res) : pf_out :=
   match r with
